@@ -4,7 +4,7 @@ From HV Require Import Base.Prelude Model.Store Proofs.Store Proofs.StoreOps Pro
 Local Open Scope N_scope.
 
 (* the state after CreateForWrite (superblock version sb) and the history h; bp / ba = the two error-path
-   patches (notes/fixes/check-link-before-allocating, attrinfo-check-before-dense-write) present or not *)
+   patches (fix e5d916a, link pre-check, attrinfo-check-before-dense-write) present or not *)
 Definition reach (bp ba : bool) (sb : N) (h : list op) : state := run (init (gcfg bp ba) sb) h.
 
 Section WithPatches.
